@@ -526,12 +526,55 @@ def range_correspondence(ctx, exe, funcs, args_of, res):
     ctx.cov["correspondence"]["repeat-range"] = {"probes": len(lines)}
 
 
+def stmt_correspondence(ctx, exe, funcs, args_of, res):
+    """functions inside the fragment of lean/StepModel/GenPyStmt.lean: what the emitted function returns must be what the Lean
+    model of the translation returns (`m_c18 model`, `func` lines: Stmt.tr + Stmt.pyExec), and the reference interpreter must
+    agree with the Lean reference semantics (`m_c18 spec`: Spec.Stmt.exec)"""
+    sel = [(f, im) for f, (o, im) in zip(funcs, res) if F.in_fragment(f) and im.get("status") == "ok"]
+    if not sel:
+        return
+    lines = []
+    for f, _ in sel:
+        args = ";".join(",".join(str(v) for v in a) for a in args_of[id(f)])
+        lines.append("func " + ",".join(f.params) + " " + args + " " + " ".join(F.lean_tokens(f)))
+    model, spec = run_lean(exe, "model", lines), run_lean(exe, "spec", lines)
+
+    def vals(line):
+        out = []
+        for v in line[len("values="):].split(";"):
+            if v.lstrip("-").isdigit():
+                v = int(v)
+                v = v if abs(v) < 10 ** 15 else "big:%d" % (v % 1000000007)
+            out.append(v)
+        return out
+    nm = ns = 0
+    for (f, im), m, sp, ln in zip(sel, model, spec, lines):
+        if not m.startswith("values=") or not sp.startswith("values="):
+            ctx.broken.append(("Gen.Py.Stmt driver", f"{ln[:200]} -> {m} / {sp}")); return
+        got = im["values"][f.name]
+        if got != vals(m) and not nm:
+            nm += 1
+            ctx.broken.append(("correspondence Gen.Py.Stmt model vs exp2python", f"{f.name}: the emitted function returns {got}, the model {vals(m)}\n{f.express()}"))
+        ref = []
+        for a in args_of[id(f)]:
+            try:
+                w = F.run(f, a)
+            except F.Budget:
+                w = None
+            ref.append(w if not (isinstance(w, int) and abs(w) >= 10 ** 15) else "big:%d" % (w % 1000000007))
+        if [r for r in ref] != [v if v != "!none" else None for v in vals(sp)] and not ns:
+            ns += 1
+            ctx.broken.append(("reference disagreement (vlib/func_gen_py18.run vs Spec.Stmt.exec)", f"{f.name}: {ref} vs {vals(sp)}\n{f.express()}"))
+    ctx.cov["correspondence"]["statement-model"] = {"functions_in_fragment": len(sel), "calls_each": 6}
+
+
 def run_functions(ctx, b, only=None, only_args=None, exe=None):
     quick = ctx.tier == "quick"
     if only is not None:
         funcs = [only]
     else:
         funcs = F.fixed_functions() + [F.gen_function(ctx.rng, i) for i in range(120 if quick else 1500)]
+        funcs += [F.gen_function(ctx.rng, 50000 + i, frag=True) for i in range(60 if quick else 600)]     # inside the Lean fragment
     args_of = {id(f): (only_args if (only is not None and only_args) else F.arguments(ctx.rng, f, 6)) for f in funcs}
 
     def evaluate(fs):
@@ -541,6 +584,7 @@ def run_functions(ctx, b, only=None, only_args=None, exe=None):
     res = evaluate(funcs)
     if exe is not None and only is None:
         range_correspondence(ctx, exe, funcs, args_of, res)
+        stmt_correspondence(ctx, exe, funcs, args_of, res)
     done, unclassified = set(), 0
     for f, (o, im) in zip(funcs, res):
         ctx.count(1, key="func:" + f.express())
